@@ -228,3 +228,33 @@ func callersOf(p *core.Program, fn *ssa.Function) []ssa.CallInstruction {
 	}
 	return out
 }
+
+// structuralAsserts lists the assertions in fn of a go/types.Type value to one of the given structural
+// go/types types (suffixes such as "types.Basic"), and those among them whose operand is not, on every
+// origin, the result of Underlying(): such a test silently fails for every defined (named) type.
+func structuralAsserts(fn *ssa.Function, suffixes ...string) (all, notUnderlying []*ssa.TypeAssert) {
+	core.InstrsOf(fn, func(in ssa.Instruction) {
+		ta, ok := in.(*ssa.TypeAssert)
+		if !ok || ta.X.Type().String() != "go/types.Type" {
+			return
+		}
+		hit := false
+		for _, s := range suffixes {
+			if strings.HasSuffix(ta.AssertedType.String(), s) {
+				hit = true
+			}
+		}
+		if !hit {
+			return
+		}
+		all = append(all, ta)
+		for _, o := range core.Origins(ta.X) {
+			c, isCall := o.(*ssa.Call)
+			if !isCall || !strings.HasSuffix(core.CalleeName(&c.Call), ".Underlying") {
+				notUnderlying = append(notUnderlying, ta)
+				return
+			}
+		}
+	})
+	return
+}
